@@ -106,8 +106,13 @@ func cmdCheck(args []string) int {
 			fmt.Fprintln(os.Stderr, "proof plan not recorded:", err)
 		}
 	}
+	t0 := time.Now()
 	res.Broken = append(res.Broken, vacuityQueries(res)...)
+	t1 := time.Now()
 	lemmaObls := runLemmas(prog, cs, pd, *tier)
+	if os.Getenv("GVC_TIMING") != "" {
+		fmt.Fprintf(os.Stderr, "timing: vacuity %.1fs lemmas %.1fs\n", t1.Sub(t0).Seconds(), time.Since(t1).Seconds())
+	}
 	res.Obligations = append(res.Obligations, lemmaObls...)
 	for _, o := range lemmaObls {
 		if o.Result.Status != "unsat" {
